@@ -386,7 +386,7 @@ def model_compare(ck, c, rec, sd, dd, stats):
     used = tabs.get(coded)
     if c["method"] == "nn":
         data = [[q_of_float(v) for v in row] for row in rows]
-        mo = ck.run_model("nn", [sx([c["rank"] == 1, n["nodes"], n["face centers"], n["edge centers"], tsx, data])])[0]
+        mo = ck.run_model("nn", [sx([n["nodes"], n["face centers"], n["edge centers"], tsx, data])])[0]
         if mo[0] != 1:
             return "model takes the error branch"
         mrows = [[Fraction(a, b) for a, b in row] for row in mo[1]]
@@ -428,7 +428,7 @@ def model_errs(ck, c, rec, sd, dd):
     rows = np.array(c["rows"], dtype=float)[:1]
     data = [[q_of_float(v) for v in row] for row in rows]
     if c["method"] == "nn":
-        mo = ck.run_model("nn", [sx([c["rank"] == 1, n["nodes"], n["face centers"], n["edge centers"], tsx, data])])[0]
+        mo = ck.run_model("nn", [sx([n["nodes"], n["face centers"], n["edge centers"], tsx, data])])[0]
     else:
         tsx = [t[:2] if len(t) > 1 else t for t in tsx]
         mo = ck.run_model("idw", [sx([n["nodes"], n["face centers"], n["edge centers"], tsx, data, 1 << TICK, int(c["power"]), EPS_Q, c["k"]])])[0]
